@@ -338,16 +338,21 @@ def rule_window(chk: Check, view: AsyncView, rid: str):
     fi = view.fi(key)
     ap = one(queue_ops(r, "q_grouped", "append"), "append on q_grouped")
     g = ap.args[0]
-    ok = g[0] == "slice" and g[2] == T.neg(S("self.connection.window")) and g[3] is None and g[4] is None and g[1][0] == "accum"
+    ok = g[0] == "slice" and g[2] == T.neg(S("self.connection.window")) and g[3] is None and g[4] is None and g[1][0] in ("accum", "comp")
     chk.add(rid, "tail slice", ok, f"q_grouped gets {T.show(g)[:200]}, expected grouped[-self.connection.window:]", chk.loc(fi, ap.node))
-    if g[0] == "slice" and g[1][0] == "accum":
+    if ok:
         acc = g[1]
         pops = queue_ops(r, "q_msgs", "popleft")
         p = pops[0].term if pops else T.NONE
         rec = T.mk_replace(T.mk_index(p, T.const(0)), (("seq_in", S("self._tick")),))
         want = ("tuple", (T.mk_attr(rec, "seq_out"), T.mk_attr(rec, "ts_sent"), T.mk_attr(rec, "ts_recv"), T.mk_index(p, T.const(1))))
-        ok = acc[1] == ("list", ()) and len(acc[2]) == 1 and acc[2][0][2] == want and acc[2][0][4] == "append" and acc[2][0][3] == pops[0].loops
-        chk.add(rid, "group layout", ok, f"group entries are {T.show(acc[2][0][2])[:240] if acc[2] else None}, expected (seq_out, ts_sent, ts_recv, payload) of each popped message in order",
+        if acc[0] == "comp":  # one entry per popped message, in pop order, nothing filtered
+            elt = acc[2]
+            ok = acc[1] == "list" and elt == want and not acc[4] and len(acc[3]) == 1 and bool(pops) and bool(pops[0].loops) and acc[3][0][1] == r.loops[pops[0].loops[-1]].iter
+        else:
+            elt = acc[2][0][2] if acc[2] else None
+            ok = acc[1] == ("list", ()) and len(acc[2]) == 1 and elt == want and acc[2][0][4] == "append" and acc[2][0][3] == pops[0].loops
+        chk.add(rid, "group layout", ok, f"group entries are {T.show(elt)[:240] if elt else None}, expected (seq_out, ts_sent, ts_recv, payload) of each popped message in order",
                 chk.loc(fi, ap.node))
     # push_step: every element pushed in order through the carried input state
     key = "node.push_step"
